@@ -3,6 +3,7 @@ import logging
 import os
 from typing import Dict, List
 
+from simple_ddl_parser import _verif
 from simple_ddl_parser.output.dialects import dialects_clean_up
 from simple_ddl_parser.output.table_data import TableData
 from simple_ddl_parser.utils import get_table_id
@@ -137,6 +138,16 @@ class Output:
                 # process tables, types, sequence and etc. data
                 statement_data = self.process_statement_data(statement)
                 self.final_result.append(statement_data)
+            if _verif.ENABLED:
+                _verif.emit(
+                    "Apply",
+                    n_entities=len(self.final_result),
+                    table_ids=[list(k) for k in self.tables_dict],
+                    columns={
+                        "|".join(str(x) for x in k): [c["name"] for c in v.columns]
+                        for k, v in self.tables_dict.items()
+                    },
+                )
         if self.group_by_type:
             self.group_by_type_result()
         return self.final_result
